@@ -24,6 +24,11 @@ def queries(tier):
                             models=True, checks='none', covers=(999, 950, 901), timeout=600,
                             desc='static offsets vs arbitrary installed offsets under runtime_checks, arity %d, %s arguments' % (ar, 'reference' if route == 1 else 'virtual_ptr'),
                             symbolic='installed slots and strides (0..7 each), group numbers of the arguments', bounds={'arity': ar}))
+    for ar in ((1, 2) if tier == 'quick' else (1, 2, 3)):
+        qs.append(Query('crosscheck_two_updates_arity%d' % ar, 'c12_static.cpp', {'ARITY': ar, 'ROUTE': 1, 'CHECKED': 1, 'TWO_CALLS': 1}, unwind=20,
+                        models=True, checks='none', covers=(999, 950, 901), timeout=600,
+                        desc='the same call site judged again after a later update installed other offsets, arity %d' % ar,
+                        symbolic='installed slots and strides before and after the later update (0..7 each), group numbers', bounds={'arity': ar, 'calls': 2}))
     for ar in (1, 2, 3, 4):
         qs.append(Query('generator_offsets_arity%d' % ar, 'c12_generator.cpp', {'ARITY': ar}, unwind=90, models=False, env=True, rtti=True,
                         checks='none', timeout=600, desc='write_static_offsets on arbitrary installed slots/strides, arity %d' % ar,
